@@ -154,13 +154,17 @@ def gen_nth(tier, r):
     for _ in range(10 if q else 100):
         op("random", r.choice([1, -1]) * r.randrange(1, 3000), r.randrange(10**5, 10**11))
     # extremes of n
-    for n in [INT64_MIN, INT64_MIN + 1, INT64_MAX, MAX_N + 1, -(MAX_N + 1), -MAX_N]:
+    for n in [INT64_MIN, INT64_MIN + 1, INT64_MAX, MAX_N + 1, -(MAX_N + 1)]:
         op("extreme-n", n, r.choice([0, 10, 10**6, UMAX]))
+    # |n| = pi(2^64) is accepted: only ask for it where the answer is immediate (n = -pi(2^64) from 2^64-1 would
+    # count every prime below 2^64)
+    op("extreme-n", -MAX_N, r.choice([0, 10, 10**6]))
     op("extreme-n", MAX_N, UMAX - 5)
     # top of the range
-    for n, start in [(1, UMAX), (3, UMAX), (1, MAXPRIME64), (1, MAXPRIME64 - 1), (2, MAXPRIME64 - 1), (-1, UMAX), (-2, UMAX),
-                     (-1, MAXPRIME64), (-1, MAXPRIME64 + 1), (5, UMAX - 300), (12, UMAX - 300), (1000, UMAX - 20000),
-                     (400, UMAX - 20000), (-1000, UMAX - 7), (40, 2**63 - 5), (-40, 2**63 + 5), (7, 2**32 - 3), (-7, 2**32 + 3)]:
+    tops = [(1, UMAX), (3, UMAX), (1, MAXPRIME64), (1, MAXPRIME64 - 1), (2, MAXPRIME64 - 1), (-1, UMAX), (-2, UMAX),
+            (-1, MAXPRIME64), (-1, MAXPRIME64 + 1), (5, UMAX - 300), (12, UMAX - 300), (1000, UMAX - 20000),
+            (400, UMAX - 20000), (-1000, UMAX - 7), (40, 2**63 - 5), (-40, 2**63 + 5), (7, 2**32 - 3), (-7, 2**32 + 3)]
+    for n, start in (r.sample(tops, 8) if q else tops):
         op("top", n, start)
     # large prime starts: the Riemann-R estimate may land below start (n = 0, 1 must not move back)
     # hook H4: nthPrimeApprox() replaced by a constant below / at / above start: forces each correction walk
@@ -177,10 +181,10 @@ def gen_nth(tier, r):
                 for v in [max(0, start - 2 * 10**7), start - 400 * n - 10 * isq, start - 3 * isq - 20 * n, start - 1, start, start + 1, start + 10 * isq, UMAX]:
                     opabs("forced-walk-neg", -n, start, v)
     for start, n, v in [(UMAX - 1000, 3, 0), (UMAX - 1000, 3, UMAX), (UMAX - 10**6, 100, UMAX), (MAXPRIME64 - 1, 1, 0), (UMAX, -1, UMAX - 10**6), (UMAX, -3, UMAX),
-                        (UMAX - 5, -2, UMAX - 10**7), (2**32, 5, 0), (2**32, -5, UMAX)]:
+                        (UMAX - 5, -2, UMAX - 10**7), (2**32, 5, 0), (2**32, -5, UMAX)][: (4 if q else 9)]:
         opabs("forced-walk-top", n, start, v)
-    for k in ([16, 18, 19] if q else [15, 16, 17, 18, 19]):
-        for _ in range(3 if q else 12):
+    for k in ([17, 19] if q else [15, 16, 17, 18, 19]):
+        for _ in range(1 if q else 12):
             x = r.randrange(10**k, min(10**(k + 1), UMAX - 10**6))
             p0 = oracle.next_prime_ge(x)
             for n, st in [(1, p0), (0, p0), (1, p0 - 1), (-1, p0 + 1), (2, p0), (0, p0 + 1)]:
